@@ -51,8 +51,11 @@ def run(L, rep, tier, seed):
             d, b = req(ctx, i, kd)
             data += d
             bodies.append(b)
-        cv = Conv(S, ctx, data, end='eof')
-        sc = {'kind': 'pipeline', 'bodies': [str(x) for x in kinds], 'blocker': p}
+        # the bytes may arrive in any segmentation: a small body that comes in pieces is still read ahead (buffered), it must not
+        # turn into a body the application has to read before the successor is delivered
+        seg = 'choose' if (scen == 0 and any(kd in (3, 1024) for kd in kinds) and ctx.choose(2, 'segmented') == 1) else False
+        cv = Conv(S, ctx, data, end='eof', short_reads=seg)
+        sc = {'kind': 'pipeline', 'bodies': [str(x) for x in kinds], 'blocker': p, 'segmented': bool(seg)}
         ctx.event('witness', 'all-small' if scen == 0 else 'blocker')
         got = []
         parked_at = None
@@ -93,9 +96,6 @@ def run(L, rep, tier, seed):
         while r is not None and r is not PARKED:
             rest.append(r)
             r = cv.next()
-        if kinds[p] == 'chunked' and rel != 'read-to-eof':
-            # unread chunked body: C09's known finding decides what follows; not this property's subject
-            return True
         ok = len(rest) == k - p - 1
         ctx.check_always(z3.BoolVal(ok and cv.blocked is None), 'successors-delivered-once-the-body-is-done', lambda m: dict(sc, release=rel, delivered_after=len(rest)))
         if ok and rest:
